@@ -79,7 +79,7 @@ class StatusObserver:
 
 def h_submit(shapes=("chain3",), bss=(1, 2), maxns=(None, 1), tas=(True,), time_based=False, G=1, fails=True,
              cancel_flags=True, lost=False, local=False, procs=None, max_steps=60, max_recoveries=None, rcs=(0, 1),
-             hooks=False, est_choices=(1, 5), wall="0:10:00", dry_run=False, hook_rcs=(0,), aliases=None, round_yields=False):
+             hooks=False, est_choices=(1, 5), wall="0:10:00", dry_run=False, hook_rcs=(0,), aliases=None, round_yields=False, user_round=False, double_recovery=False):
     def harness(ex):
         from world.world import Hang
 
@@ -151,13 +151,19 @@ def h_submit(shapes=("chain3",), bss=(1, 2), maxns=(None, 1), tas=(True,), time_
                 rc_mem[name] = rcs[ex.choice("rc_" + name, len(rcs))] if fails else 0
             return rc_mem[name]
 
-        if round_yields:
+        if round_yields or user_round or double_recovery:
             # a compute node's submitter round can be pre-empted after each release of the cluster lock, so that other
-            # nodes finish and attempt their own rounds while this one holds the submitter role
+            # nodes finish and attempt their own rounds while this one holds the submitter role; a user's try-submit-jobs
+            # started while batches are still running (user_round) is pre-empted after every lock release and before squeue
             def yield_hook(w_, kind_, detail):
-                if (kind_ == "lock_released" and detail["path"].endswith("cluster_config.json.lock") and w_._thread_proc() is not None
-                        and "try-submit-jobs" in w_.cur.name):
+                tp = w_._thread_proc()
+                if tp is None or "try-submit-jobs" not in w_.cur.name:
+                    return
+                is_user = tp.name.startswith("user:")
+                if kind_ == "lock_released" and (detail["path"].endswith("cluster_config.json.lock") or is_user):
                     w_.block(("yield", "round"))
+                elif kind_ == "squeue" and is_user:
+                    w_.block(("yield", "squeue"))
 
             w.effect_hook = yield_hook
         if lost:
@@ -183,6 +189,8 @@ def h_submit(shapes=("chain3",), bss=(1, 2), maxns=(None, 1), tas=(True,), time_
         nb_bound = (max_recoveries if max_recoveries is not None else N + 2)
         killed = set()
         wedged = False
+        uprocs = []
+        did_double = False
         for step in range(max_steps):
             if local:
                 evs = [("exit", j["name"]) for j in w.jobs if j["state"] == "running"]
@@ -190,6 +198,14 @@ def h_submit(shapes=("chain3",), bss=(1, 2), maxns=(None, 1), tas=(True,), time_
                     evs.append(("lpoll", None))
             else:
                 evs = enabled_events(w)
+                if user_round:
+                    # up to `user_round` try-submit-jobs typed on the same login host while batches are running (e.g. a manual
+                    # one and the one started by show-status), overlapping with each other and with the nodes' rounds
+                    if len(uprocs) < int(user_round) and evs and ex.flag("user_round_at_%d" % step):
+                        uprocs.append(w.spawn("user:try-submit-jobs#%d" % len(uprocs), "login1", w.base_env,
+                                              lambda: w._dispatch_jade(["jade", "try-submit-jobs", out])))
+                        continue
+                    evs = evs + [("uresume", k_) for k_, u_ in enumerate(uprocs) if not u_.done]
                 if lost:
                     for bid, b in w.batches.items():
                         if b["state"] in ("PENDING", "RUNNING") and len(killed) < 1:
@@ -204,6 +220,26 @@ def h_submit(shapes=("chain3",), bss=(1, 2), maxns=(None, 1), tas=(True,), time_
                     break
                 if c.is_complete() or dry_run:
                     break
+                if double_recovery and not did_double:
+                    # the recovery is typed twice on the same login host and the two processes overlap
+                    did_double = True
+                    recoveries += 1
+                    before = len(w.events("sbatch"))
+                    us = [w.spawn("user:try-submit-jobs#%d" % k_, "login1", w.base_env,
+                                  lambda: w._dispatch_jade(["jade", "try-submit-jobs", out])) for k_ in range(2)]
+                    for sub_step in range(60):
+                        live = [u_ for u_ in us if not u_.done]
+                        if not live:
+                            break
+                        w.resume_proc(live[ex.choice("u%d_%d" % (step, sub_step), len(live))])
+                    c = cluster_status(out)
+                    if c is None:
+                        ex.check(False, "C05: cluster lock left behind in a fault-free history (submission wedged)")
+                        wedged = True
+                        break
+                    ex.check(len(w.events("sbatch")) > before or c.is_complete(),
+                             "C05: try-submit-jobs at quiescence neither submitted a batch nor completed the submission")
+                    continue
                 # quiescent, not complete: the documented recovery
                 recoveries += 1
                 ex.check(recoveries <= nb_bound, "C05: more try-submit-jobs recoveries than batches + 1 were needed", recoveries=recoveries)
@@ -232,6 +268,8 @@ def h_submit(shapes=("chain3",), bss=(1, 2), maxns=(None, 1), tas=(True,), time_
                     w.record("batch_killed", id=ev[1], state="CANCELLED")
                 else:
                     w.kill_batch(ev[1], "TIMEOUT")
+            elif ev[0] == "uresume":
+                w.resume_proc(uprocs[ev[1]])
             elif ev[0] == "lpoll":
                 before = w.seq
                 w.resume_proc(submit_proc)
